@@ -121,8 +121,77 @@ pub fn sizes_for(vlevels: u8, tier: Tier) -> Vec<u32> {
     }
 }
 
+/// Size plan for trees with three or more value-producing levels: given the mass with which each level is
+/// reached (measured by the pilot), choose the alphabet size of every level (0 = level pruned, its mass becomes
+/// residual) so that the modelled error sum_d R_d * 1.5 / n_d + pruned mass is minimal under a budget on the
+/// number of children visited. Deep levels get few dyadic tail cells.
+pub struct SizePlan {
+    pub sizes: Vec<u32>,
+    pub tail_levels: Vec<u32>,
+    pub macro_tail_bits: Vec<u32>,
+    pub model_err: f64,
+    pub model_cost: f64,
+    pub feasible: bool,
+}
+
+pub fn plan_sizes(reach: &[f64], vl: usize, budget: f64, tail_points: u32) -> SizePlan {
+    let d_n = vl.min(6).max(1);
+    let mut r: Vec<f64> = (0..d_n).map(|d| reach.get(d).cloned().unwrap_or(0.0).min(1.0).max(0.02)).collect();
+    r[0] = 1.0;
+    for d in 1..d_n {
+        r[d] = r[d].min(r[d - 1]);
+    }
+    let tl: Vec<u32> = vec![64, 12, 6, 3, 3, 3];
+    let extra: Vec<f64> = (0..d_n).map(|d| if d == 0 { 100.0 * tail_points as f64 } else { 2.0 * tail_points as f64 * tl[d] as f64 }).collect();
+    let mut best: (f64, f64, Vec<u32>) = (f64::INFINITY, 0.0, vec![]);
+    let mut cur: Vec<u32> = vec![0; d_n];
+    fn rec(d: usize, d_n: usize, nodes: f64, cost: f64, err: f64, r: &[f64], extra: &[f64], budget: f64, cur: &mut Vec<u32>, best: &mut (f64, f64, Vec<u32>)) {
+        if d == d_n {
+            if err < best.0 {
+                *best = (err, cost, cur.clone());
+            }
+            return;
+        }
+        // prune this level and everything below (only levels that are reached rarely may be given up)
+        if d >= 1 && r[d] < 0.1 {
+            let e = err + r[d];
+            if e < best.0 {
+                let mut c = cur.clone();
+                for x in c[d..].iter_mut() {
+                    *x = 0;
+                }
+                *best = (e, cost, c);
+            }
+        }
+        let (lo, hi) = if d == 0 { (4, 14) } else { (2, 12) };
+        for lg in lo..=hi {
+            let n = (1u32 << lg) as f64;
+            let children = nodes * (n + extra[d]);
+            let c = cost + children;
+            if c > budget {
+                break;
+            }
+            cur[d] = 1 << lg;
+            let f = if d + 1 < d_n { r[d + 1] / r[d] } else { 0.0 };
+            rec(d + 1, d_n, (children * f).max(1.0), c, err + r[d] * 1.5 / n, r, extra, budget, cur, best);
+        }
+        cur[d] = 0;
+    }
+    rec(0, d_n, 1.0, 0.0, 0.0, &r, &extra, budget, &mut cur, &mut best);
+    let mut sizes = best.2.clone();
+    let feasible = !sizes.is_empty();
+    if sizes.is_empty() {
+        sizes = vec![4; d_n];
+    }
+    // levels beyond the planned ones are pruned
+    sizes.push(0);
+    let macro_tail_bits: Vec<u32> = sizes.iter().enumerate().map(|(d, &n)| if d == 0 { 24 } else { (n.max(2) as f64).log2().ceil() as u32 + if d == 1 { 6 } else { 3 } }).collect();
+    SizePlan { sizes, tail_levels: tl, macro_tail_bits, model_err: best.0, model_cost: best.1, feasible }
+}
+
 pub fn check_case(case: &Case, macros: &Mutex<MacroAlphabets>, tier: Tier) -> Option<LawOutcome> {
     let t0 = std::time::Instant::now();
+    crate::exec::set_label(&case.label);
     let case_cap = std::time::Duration::from_secs(if tier == Tier::Quick { 25 } else { 240 });
     if !case.law_note.is_empty() {
         // stated plainly: the law of this case is not decided by this technique (no restart structure, one
@@ -137,20 +206,21 @@ pub fn check_case(case: &Case, macros: &Mutex<MacroAlphabets>, tier: Tier) -> Op
     pc.lattice = vec![8, 8, 4, 4, 2];
     pc.macro_cells = vec![8, 8, 4, 4, 2];
     pc.tail_bits = 0;
+    pc.macro_tail_bits = vec![5, 5, 4, 4, 3, 3];
     pc.exec_budget = 3_000_000;
     pc.deadline = Some(t0 + case_cap / 4);
-    let vlevels = {
+    let (vlevels, reach, pilot_cut, pilot_epc) = {
         let mut ex = Explorer::new(&*s, &grid, pc, Some(macros));
         let r = ex.run(&[]);
         // a pilot that was cut short (budget or time) has not seen the whole tree: treat the case as deep
-        if ex.cnt.budget_hit { r.vlevels.max(4) } else { r.vlevels }
+        (if ex.cnt.budget_hit { r.vlevels.max(4) } else { r.vlevels }, ex.reach.clone(), ex.cnt.budget_hit, ex.cnt.execs as f64 / ex.cnt.edges.max(1) as f64)
     };
-    if vlevels >= 4 && tier == Tier::Quick && std::env::var("VERIF_DEEP").is_err() {
+    if vlevels >= 4 && tier == Tier::Quick && pilot_cut {
         // four or more value-producing draws: the tree is not explorable at a useful resolution in the quick tier
         return Some(LawOutcome {
             label: case.label.clone(), ok: true, judged: false, worst_ratio: 0.0, worst_dev: 0.0, worst_tol: 0.0, worst_at: f64::NAN, worst_ref: f64::NAN, max_abs_dev: 0.0,
             resid: 1.0, bad: 0.0, words: 0.0, vlevels, cnt: Counters::default(), bad_leaves: vec![], boundary_scripts: vec![], checkpoints: grid.k(), unresolved: grid.k(),
-            note: "four or more value-producing draws: not explored in the quick tier".into(), min_accept: 1.0, wall_s: t0.elapsed().as_secs_f64(),
+            note: "four or more value-producing draws and a pilot exploration that did not finish: not explored in the quick tier".into(), min_accept: 1.0, wall_s: t0.elapsed().as_secs_f64(),
         });
     }
     let mut cfg = TreeCfg::default();
@@ -158,13 +228,99 @@ pub fn check_case(case: &Case, macros: &Mutex<MacroAlphabets>, tier: Tier) -> Op
     if let Ok(v) = std::env::var("VERIF_SIZES") {
         sz = v.split(',').filter_map(|x| x.parse().ok()).collect();
     }
-    cfg.lattice = sz.clone();
-    cfg.macro_cells = sz;
+    let mut plan_note = String::new();
+    let mut planned = false;
     cfg.tail_points = if tier == Tier::Quick { 2 } else { 4 };
     cfg.exec_budget = if tier == Tier::Quick { 120_000_000 } else { 1_500_000_000 };
-    cfg.deadline = Some(t0 + case_cap);
-    let mut ex = Explorer::new(&*s, &grid, cfg, Some(macros));
-    let res = ex.run(&[]);
+    let deep_quick = tier == Tier::Quick && vlevels >= 4;
+    let mut done: Option<(Explorer, Res)> = None;
+    let mut extra_execs = 0u64;
+    if vlevels >= 3 && !pilot_cut && std::env::var("VERIF_SIZES").is_err() && std::env::var("VERIF_NOPLAN").is_err() {
+        // Planned sizes, scaled to a time target by measurement: every iteration is a complete exploration;
+        // the time per modelled child of one iteration sets the budget of the next; the last completed one is used.
+        let target: f64 = std::env::var("VERIF_TARGET").ok().and_then(|v| v.parse().ok()).unwrap_or(if tier == Tier::Quick { 3.0 } else { 60.0 });
+        let mut last_model_err = 1.0;
+        let mut plan_cut = false;
+        let plan_deadline = t0 + if tier == Tier::Quick { case_cap / 4 } else { case_cap / 2 };
+        let mut budget = 5.0e4;
+        let mut reach_now = reach.clone();
+        for _iter in 0..5 {
+            let mut plan = plan_sizes(&reach_now, vlevels as usize, budget, cfg.tail_points);
+            while !plan.feasible && budget < 1e9 {
+                budget *= 2.0;
+                plan = plan_sizes(&reach_now, vlevels as usize, budget, cfg.tail_points);
+            }
+            let mut c = cfg.clone();
+            c.lattice = plan.sizes.clone();
+            c.macro_cells = plan.sizes.clone();
+            c.tail_levels = plan.tail_levels.clone();
+            c.macro_tail_bits = plan.macro_tail_bits.clone();
+            c.deadline = Some(plan_deadline);
+            let t1 = std::time::Instant::now();
+            let mut e = Explorer::new(&*s, &grid, c, Some(macros));
+            let r = e.run(&[]);
+            let el = t1.elapsed().as_secs_f64();
+            if std::env::var("VERIF_DEBUG_TOL").is_ok() {
+                eprintln!("  {}: plan {:?} budget {:.1e} model err {:.2e} cost {:.2e}: {:.2}s execs {} cut {}", case.label, plan.sizes, budget, plan.model_err, plan.model_cost, el, e.cnt.execs, e.cnt.budget_hit);
+            }
+            if e.cnt.budget_hit {
+                extra_execs += e.cnt.execs;
+                plan_cut = true;
+                break;
+            }
+            let better = done.is_none() || plan.model_err < 0.98 * done.as_ref().map(|_| f64::INFINITY).unwrap_or(f64::INFINITY);
+            if let Some((pe, _)) = done.as_ref() {
+                extra_execs += pe.cnt.execs;
+            }
+            let _ = better;
+            plan_note = format!("size plan {:?} for reach {:?} (model error {:.2e}, {:.2e} children modelled, {:.2}s)", plan.sizes, reach_now.iter().take(vlevels as usize).map(|x| (x * 1e4).round() / 1e4).collect::<Vec<_>>(), plan.model_err, plan.model_cost, el);
+            // the run's own reach is a better estimate than the pilot's
+            let explored = plan.sizes.iter().position(|&n| n == 0).unwrap_or(plan.sizes.len());
+            for d in 0..explored.min(reach_now.len()) {
+                reach_now[d] = e.reach[d];
+            }
+            let growth = if explored < vlevels as usize { 6.0 } else { 40.0 };
+            done = Some((e, r));
+            planned = true;
+            last_model_err = plan.model_err;
+            let tpc = el.max(1e-4) / plan.model_cost.max(1.0);
+            let nb = 0.6 * target / tpc;
+            let left = plan_deadline.saturating_duration_since(std::time::Instant::now()).as_secs_f64();
+            if nb < budget * 1.5 || left < 0.8 * target {
+                break;
+            }
+            budget = nb.min(budget * growth);
+        }
+        if done.is_some() && last_model_err > 0.15 && !deep_quick {
+            // the affordable plan is too coarse to be useful: the fixed size table (slower, all levels) is used instead
+            if let Some((pe, _)) = done.take() {
+                extra_execs += pe.cnt.execs;
+            }
+        }
+        if done.is_none() && plan_cut && tier == Tier::Quick {
+            return Some(LawOutcome {
+                label: case.label.clone(), ok: true, judged: false, worst_ratio: 0.0, worst_dev: 0.0, worst_tol: 0.0, worst_at: f64::NAN, worst_ref: f64::NAN, max_abs_dev: 0.0,
+                resid: 1.0, bad: 0.0, words: 0.0, vlevels, cnt: Counters { execs: extra_execs, ..Default::default() }, bad_leaves: vec![], boundary_scripts: vec![], checkpoints: grid.k(), unresolved: grid.k(),
+                note: "three or more value-producing draws: no complete exploration within the quick tier's time share".into(), min_accept: 1.0, wall_s: t0.elapsed().as_secs_f64(),
+            });
+        }
+    }
+    let (mut ex, res) = match done {
+        Some(x) => x,
+        None => {
+            if !plan_note.is_empty() || (vlevels >= 3 && !pilot_cut) {
+                plan_note = "planned exploration not finished in time, fixed size table used instead".into();
+            }
+            planned = false;
+            cfg.lattice = sz.clone();
+            cfg.macro_cells = sz;
+            cfg.deadline = Some(t0 + case_cap);
+            let mut e = Explorer::new(&*s, &grid, cfg.clone(), Some(macros));
+            let r = e.run(&[]);
+            (e, r)
+        }
+    };
+    ex.cnt.execs += extra_execs;
     let k = grid.k();
     let l = res.cdf(k);
     let cdf = match &case.law {
@@ -175,7 +331,7 @@ pub fn check_case(case: &Case, macros: &Mutex<MacroAlphabets>, tier: Tier) -> Op
     let mut out = LawOutcome {
         label: case.label.clone(), ok: true, judged: true, worst_ratio: 0.0, worst_dev: 0.0, worst_tol: 0.0, worst_at: f64::NAN, worst_ref: f64::NAN, max_abs_dev: 0.0,
         resid: res.resid, bad: res.bad, words: res.words, vlevels, cnt: ex.cnt.clone(), bad_leaves: ex.bad_leaves.clone(), boundary_scripts: ex.boundary_scripts.clone(),
-        checkpoints: k, unresolved: 0, note: case.law_note.to_string(), min_accept: 1.0, wall_s: 0.0,
+        checkpoints: k, unresolved: 0, note: if plan_note.is_empty() { case.law_note.to_string() } else { plan_note.clone() }, min_accept: 1.0, wall_s: 0.0,
     };
     if !case.law_note.is_empty() || res.resid > 0.2 || ex.cnt.budget_hit {
         // stated plainly: the law of this case is not decided (Knuth product method etc.)
@@ -204,7 +360,10 @@ pub fn check_case(case: &Case, macros: &Mutex<MacroAlphabets>, tier: Tier) -> Op
         // one cell of the deeper levels (slivers between an accepted value and the rejection region, wrap-arounds)
         // is invisible to the variation bound: such cases pay the cell mass of their second level
         let f32_gran = if is32 { 2f64.powi(-22) } else { 0.0 };
-        let floor = if vlevels >= 2 { 1.0 / ex.cfg.lattice.get(1).cloned().unwrap_or(64) as f64 } else { 0.0 };
+        let floor = if vlevels >= 2 {
+            let n1 = ex.cfg.lattice.get(1).cloned().unwrap_or(64);
+            if n1 == 0 { 0.0 } else if planned { ex.reach[1].min(1.0) / n1 as f64 } else { 1.0 / n1 as f64 }
+        } else { 0.0 };
         let abs_gran = if case.abs_gran > 0.0 { (cdf(t + case.abs_gran) - cdf(t - case.abs_gran)).abs() } else { 0.0 };
         let tol = e + res.resid + res.bad + gran + abs_gran + tref + f32_gran + floor + 1e-12;
         out.max_abs_dev = out.max_abs_dev.max(dev);
